@@ -580,7 +580,15 @@ func init() {
 				with(cfgParams(0, 0, 2, 10, 0, 0), "nset", 3, "tmax", tm, "override", 0, "lean", 1),
 				func(b *Bounds) { b.Unwind = 70; b.MaxPaths = 600000; b.MaxWallS = 1200 }))
 		}
+		// expiry and refresh together on a bounded cache (concrete clock), with a per-entry refresh override of symbolic
+		// length: refresh deadlines before, at and after the expiration deadline
+		js = append(js, mk("c19.bser_max4.roverride.tmax0", rootPkg, "ZZ_C19_SaveLoad",
+			with(cfgParams(1, 2, 1, 4, 0, 0), "nset", 2, "tmax", 0, "override", 0, "roverride", 1),
+			func(b *Bounds) { b.Unwind = 70; b.MaxPaths = 600000; b.MaxWallS = 1200 }))
 		for _, j := range js {
+			if _, ok := j.Params["roverride"]; !ok {
+				j.Params["roverride"] = 0
+			}
 			if j.Params["bound"] == 0 {
 				j.Prefer = "int"
 			}
@@ -588,7 +596,7 @@ func init() {
 				j.Params["lean"] = 0
 			}
 		}
-		j := mk("c19.canary", rootPkg, "ZZ_C19_SaveLoad", with(cfgParams(2, 0, 0, 0, 1, 0), "nset", 1, "tmax", 0, "override", 0, "canary", 1, "lean", 0), func(b *Bounds) { b.Unwind = 70 })
+		j := mk("c19.canary", rootPkg, "ZZ_C19_SaveLoad", with(cfgParams(2, 0, 0, 0, 1, 0), "nset", 1, "tmax", 0, "override", 0, "canary", 1, "lean", 0, "roverride", 0), func(b *Bounds) { b.Unwind = 70 })
 		j.Canary = "c19.canary"
 		return append(js, j)
 	}
